@@ -222,6 +222,14 @@ def run(ctx):
                     bins.append((bytes(raw), [(1, 2, 3), (127,)]))
                     bins.append((' '.join(f'{b:02X}' for b in raw).encode('ascii'), [(1, 2, 3), (127,)]))
                 bins.append((bytes([0xF0, rb, rb, 0xF7, rb]), [()]))
+            # every kind of other message directly in front of a sysex with 0..5 payload bytes (binary and text)
+            for pre in ([0x90, 1, 2], [0xC0, 5], [0xF2, 1, 2], [0xF3, 9], [0xF1, 0x35], [0xF6], [0xF8], [0xE1, 0, 64], [0xB0, 7, 100, 0xC1, 2]):
+                for k in range(6):
+                    payload = [(k + i) % 128 for i in range(k)]
+                    raw = [0xF0, 0x7D, 0xF7] + pre + [0xF0] + payload + [0xF7] + pre + [0xF0, 1, 2, 3, 0xF7]
+                    want3 = [(0x7D,), tuple(payload), (1, 2, 3)]
+                    bins.append((bytes(raw), want3))
+                    bins.append((' '.join(f'{b:02x}' for b in raw).encode('ascii'), want3))
             for raw, want in bins:
                 path = os.path.join(d, f'b{ctx.count_files}.syx')
                 ctx.count_files += 1
@@ -365,6 +373,25 @@ def run(ctx):
                             if os.path.exists(path):
                                 os.remove(path)
                         n += 1
+            # one path rewritten at once with other contents of exactly the same size (and read in between)
+            for plaintext in (False, True):
+                path = os.path.join(d, f'same{ctx.count_files}.syx')
+                ctx.count_files += 1
+                case = {'kind': 'same-size-rewrite', 'plaintext': plaintext}
+                try:
+                    seen = []
+                    for rnd in range(6):
+                        data = (rnd, 10 + rnd, 20 + rnd)
+                        write_syx_file(path, [Message('sysex', data=data), Message('sysex', data=(rnd,))], plaintext=plaintext)
+                        seen.append(data_of(read_syx_file(path)) == [data, (rnd,)])
+                    ctx.check('read(write(L)) == sysex(L) [text]' if plaintext else 'read(write(L)) == sysex(L) [binary]', all(seen),
+                              'stale-after-same-size-rewrite', case, seen)
+                except Exception as exc:
+                    ctx.fail('read(write(L)) == sysex(L) [binary]', f'same-size-rewrite:{type(exc).__name__}', case, repr(exc))
+                finally:
+                    if os.path.exists(path):
+                        os.remove(path)
+                n += 1
             # failed reads (and other calls) must leave nothing behind for the next read
             good = os.path.join(d, 'good.syx')
             write_syx_file(good, [Message('sysex', data=(9, 8, 7))])
